@@ -32,18 +32,18 @@ def pricing_obligations(ctx, n1, n2):
     T = pz.T
     numeric.run_obligation(n1, n1.id, f, T, pz.ideal - (pz.n + pz.k),
                            "gross output G = n + commission <= ask*offer/(offer_reserve+offer) for all 128-bit inputs (hence n <= it, commission being an unsigned floor)",
-                           box=("beta",), subst=pz.csub)
+                           box=("beta",), subst=pz.csub, role="swap-pricing")
     # N2: n + k is the gross output and the subtraction aborts when negative
     G = pz.n + pz.k
     if any(kind == "nonneg" and t.equals(pz.n) for (kind, t, org) in T.aborts):
         n2.site("n = gross - commission is an aborting subtraction (never negative, commission never paid out twice)")
     else:
-        n2.fail("%s:%s:unchecked-sub" % (n2.id, f.path), f.path, f.span, "the net output is not computed as an aborting subtraction gross - commission")
+        n2.fail("%s:%s:unchecked-sub" % (n2.id, "swap-pricing"), f.path, f.span, "the net output is not computed as an aborting subtraction gross - commission")
     want_k = T.floors.floor(G * pz.c / RF(eround.D18), "ref")
     if pz.k.equals(want_k):
         n2.site("commission = floor(rate * gross): %s" % pz.k.show())
     else:
-        n2.fail("%s:%s:commission" % (n2.id, f.path), f.path, f.span, "commission is %s, expected floor(rate*gross) = %s" % (pz.k.show(), want_k.show()))
+        n2.fail("%s:%s:commission" % (n2.id, "swap-pricing"), f.path, f.span, "commission is %s, expected floor(rate*gross) = %s" % (pz.k.show(), want_k.show()))
     ctx.extra.setdefault("terms", {})["pricing"] = {"n": pz.n.show(), "spread": pz.s.show() if pz.s is not None else "?", "commission": pz.k.show(),
                                                     "floors": ["%s = floor(%s)  <- %s" % (a, b.show(), c) for a, b, c in T.floors.items]}
     return pr, f, bb, pz
@@ -54,18 +54,18 @@ def handler_wiring(ctx, r1, pr, f, bb):
     P = ctx.P
     swap = pr.swap_handler
     body = swap.body
-    offer_i = common.param_index_of_type(swap, r"^haloswap::asset::Asset$")
+    offer_i = common.param_index_of_type(swap, "^%s$" % ctx.N.rx("Asset"))
     env = param(swap, ENV_TY)
     t = body.blocks[bb]["term"]
     n = len(body.blocks[bb]["stmts"])
     # pools come from query_pools(own address) of PAIR_INFO in this call
-    qp = [(b, P.val_call(swap, body, b)) for b, p, fr, tt in P.calls(swap) if p and generic_path(p).endswith("PairInfoRaw::query_pools")]
+    qp = [(b, P.val_call(swap, body, b)) for b, p, fr, tt in P.calls(swap) if ctx.N.is_fn(p, "query_pools")]
     if len(qp) != 1:
         r1.fail("C01.R1:query-pools", swap.path, swap.span, "expected one query_pools call in the swap handler, found %d" % len(qp))
         return
     qb, qv = qp[0]
-    QP = "C:haloswap::asset::PairInfoRaw::query_pools@%s:bb%d" % (swap.path, qb)
-    if set(ctx.roots(qv[4][0])) != {"load(I:halo_pair::state::PAIR_INFO)"} or set(ctx.roots(qv[4][3])) != {P_(swap, env, ".contract.address")}:
+    QP = "C:%s@%s:bb%d" % (ctx.N.cpath("query_pools"), swap.path, qb)
+    if set(ctx.roots(qv[4][0])) != {"load(%s)" % ctx.N.PAIR_INFO} or set(ctx.roots(qv[4][3])) != {P_(swap, env, ".contract.address")}:
         r1.fail("C01.R1:pools-origin", swap.path, common.span_of_block_term(swap, qb), "reserves are read for %s / %s, expected the pair's own PAIR_INFO and address" % (
             sorted(ctx.roots(qv[4][0])), sorted(ctx.roots(qv[4][3]))))
     else:
@@ -121,7 +121,7 @@ def handler_wiring(ctx, r1, pr, f, bb):
     else:
         r1.site("priced amount ⊢ offer_asset.amount")
     rate = set(ctx.roots(cv[4][3]))
-    if rate not in ({"load(I:halo_pair::state::COMMISSION_RATE_INFO)"}, {"load(I:halo_pair::state::PAIR_INFO).commission_rate"}):
+    if rate not in ({"load(%s)" % ctx.N.COMMISSION}, {"load(%s).commission_rate" % ctx.N.PAIR_INFO}):
         r1.fail("C01.R1:rate", swap.path, common.span_of_block_term(swap, bb), "commission rate ⊢ %s, expected the pair's stored rate" % sorted(rate))
     else:
         r1.site("rate ⊢ %s" % sorted(rate)[0])
